@@ -95,13 +95,17 @@ def ipFactory (val : Val) (stdlib : Bool) (mode : Str) : Except Err Ret :=
   else if mode = modeV6 then wrapAVE (getIpv6 val stdlib)
   else .error .requirementFailure
 
-/-- `check_valid_ipaddress(text)`: the text is stripped and handed to `IPv4Obj`; a failure is re-raised
-as `ValueError` at once, so the `IPv6Obj` attempt below it in the source is never reached and the
-family is always 4 -/
+/-- `check_valid_ipaddress(text)`: the text is stripped and handed to `IPv4Obj` (family 4 if it accepts); otherwise
+to `IPv6Obj` (family 6 if it accepts); otherwise `ValueError`.  (Before the repair `fix: check_valid_ipaddress() tries
+IPv6 when the text is not an IPv4 address` the failure of the `IPv4Obj` attempt was re-raised as `ValueError` at once,
+so the `IPv6Obj` attempt below it in the source was never reached and the family was always 4: finding FC11a.) -/
 def checkValid (s : Str) : Except Err (Str × Nat) :=
   match V4.fromStr (strip s) with
   | .ok _ => .ok (strip s, 4)
-  | .error _ => .error .valueError
+  | .error _ =>
+    match V6.fromStr (strip s) with
+    | .ok _ => .ok (strip s, 6)
+    | .error _ => .error .valueError
 
 /-! ## argument guards -/
 
